@@ -80,3 +80,125 @@ Example c13_example :
   let c := udp_ipv4_checksum d [10;0;0;1] [10;0;0;2] in
   oc_norm (pseudo_sum [10;0;0;1] [10;0;0;2] 17 d + zsum (words (put_word 3 c d))) = 65535.
 Proof. vm_compute. reflexivity. Qed.
+
+(* ====================================================================================================
+   Further statements (Proofs/ChecksumExtra.v).
+   ==================================================================================================== *)
+From TV Require Import Net.Rfc Proofs.ChecksumExtra.
+From TV Require Core.Types Net.RecvCommon Net.ProbeShape Proofs.Dispatch4Proofs.
+
+(* ---- the receiver's test over the pseudo-header OCTETS of RFC 768 (IPv4) and RFC 8200 8.1 (IPv6) as laid out in
+   Net/Rfc.v (source, destination, zero, protocol, length / source, destination, 32-bit length, 24 zero bits, next
+   header), not over the arithmetic shortcut [pseudo_sum] ---- *)
+Theorem c13_valid_udp4 : forall d src dst, bytes d -> bytes src -> bytes dst ->
+  length src = 4%nat -> length dst = 4%nat -> (8 <= length d)%nat /\ Z.of_nat (length d) <= 65535 ->
+  rfc1071_valid (pseudo_header_v4 src dst 17 (Z.of_nat (length d))) (put_word 3 (udp_ipv4_checksum d src dst) d).
+Proof. intros d src dst Hd Hs Hds Hls Hld Hl. apply (keyed_valid_v4 d 3 src dst 17); try assumption; lia. Qed.
+
+Theorem c13_valid_tcp4 : forall d src dst, bytes d -> bytes src -> bytes dst ->
+  length src = 4%nat -> length dst = 4%nat -> (18 <= length d)%nat /\ Z.of_nat (length d) <= 65535 ->
+  rfc1071_valid (pseudo_header_v4 src dst 6 (Z.of_nat (length d))) (put_word 8 (tcp_ipv4_checksum d src dst) d).
+Proof. intros d src dst Hd Hs Hds Hls Hld Hl. apply (keyed_valid_v4 d 8 src dst 6); try assumption; lia. Qed.
+
+Theorem c13_valid_udp6 : forall d src dst, bytes d -> bytes src -> bytes dst ->
+  length src = 16%nat -> length dst = 16%nat -> (8 <= length d)%nat /\ Z.of_nat (length d) <= 65535 ->
+  rfc1071_valid (pseudo_header_v6 src dst 17 (Z.of_nat (length d))) (put_word 3 (udp_ipv6_checksum d src dst) d).
+Proof. intros d src dst Hd Hs Hds Hls Hld Hl. apply (keyed_valid_v6 d 3 src dst 17); try assumption; lia. Qed.
+
+Theorem c13_valid_icmp6 : forall d src dst, bytes d -> bytes src -> bytes dst ->
+  length src = 16%nat -> length dst = 16%nat -> (4 <= length d)%nat /\ Z.of_nat (length d) <= 65535 ->
+  rfc1071_valid (pseudo_header_v6 src dst 58 (Z.of_nat (length d))) (put_word 1 (icmp_ipv6_checksum d src dst) d).
+Proof. intros d src dst Hd Hs Hds Hls Hld Hl. apply (keyed_valid_v6 d 1 src dst 58); try assumption; lia. Qed.
+
+(* ---- "with the checksum field taken as zero": the result does not depend on what the field holds ---- *)
+Theorem c13_field_taken_as_zero_keyed : forall d k v src dst proto, bytes d -> bytes src -> bytes dst ->
+  (length src <= 16)%nat -> (length dst <= 16)%nat -> 0 <= proto <= 255 ->
+  (2 * k + 2 <= length d)%nat /\ Z.of_nat (length d) <= 65535 -> 0 <= v < 65536 ->
+  ip_checksum (put_word k v d) (Z.of_nat k) src dst proto = ip_checksum d (Z.of_nat k) src dst proto.
+Proof. exact ip_checksum_field_independent. Qed.
+
+Theorem c13_field_taken_as_zero_unkeyed : forall d k v, bytes d ->
+  (2 * k + 2 <= length d)%nat /\ Z.of_nat (length d) <= 65535 -> 0 <= v < 65536 ->
+  checksum (put_word k v d) (Z.of_nat k) = checksum d (Z.of_nat k).
+Proof. exact checksum_field_independent. Qed.
+
+(* ---- the positions of the skipped word that no packet type reaches: when it coincides with the odd tail the
+   tail octet is left out; when it lies beyond the data nothing is left out (so every length 0.. is covered:
+   c13_value_keyed for 2k+2 <= length, these two for 2k+1 = length and length <= 2k) ---- *)
+Theorem c13_skipped_word_is_odd_tail : forall d k src dst proto, bytes d -> bytes src -> bytes dst ->
+  (length src <= 16)%nat -> (length dst <= 16)%nat -> 0 <= proto <= 255 ->
+  length d = (2 * k + 1)%nat -> Z.of_nat (length d) <= 65535 ->
+  ip_checksum d (Z.of_nat k) src dst proto =
+  65535 - oc_norm (pseudo_sum src dst proto d + zsum (words (firstn (2 * k) d))).
+Proof. exact ip_checksum_tail_skipped. Qed.
+
+Theorem c13_skipped_word_beyond_data : forall d k src dst proto, bytes d -> bytes src -> bytes dst ->
+  (length src <= 16)%nat -> (length dst <= 16)%nat -> 0 <= proto <= 255 ->
+  (length d <= 2 * k)%nat -> Z.of_nat (length d) <= 65535 ->
+  ip_checksum d (Z.of_nat k) src dst proto = 65535 - oc_norm (pseudo_sum src dst proto d + zsum (words d)).
+Proof. exact ip_checksum_beyond. Qed.
+
+(* every checksum is a u16 *)
+Theorem c13_result_is_u16 : forall d k src dst proto,
+  0 <= checksum d k < 65536 /\ 0 <= ip_checksum d k src dst proto < 65536.
+Proof. intros. split; [apply checksum_range|apply Dispatch4Proofs.ip_checksum_range]. Qed.
+
+(* ---- Paris over IPv6: ipv6.rs make_udp_packet transmits a computed checksum of zero as 0xFFFF, and the Paris swap
+   moves that word into the 2-octet payload.  [paris_udp_v6] (closed form; it IS what Net/Dispatch6.v hands to
+   send_to, Props/C11.v c11_udp_ipv6_paris_is_c13, and what the probe shape of Net/ProbeShape.v is,
+   c13_paris_ipv6_probe_shape) meets the specification by properties [paris_v6_spec]: ten octets, ports and
+   length untouched, the sequence in the checksum field, a payload word that is never zero, valid under the
+   RFC 8200 pseudo-header - for every sequence, port pair and address pair ---- *)
+Theorem c13_paris_ipv6 : forall sp dp seq src dst,
+  0 <= sp < 65536 -> 0 <= dp < 65536 -> 0 <= seq < 65536 ->
+  bytes src -> bytes dst -> length src = 16%nat -> length dst = 16%nat ->
+  let u := paris_udp_v6 sp dp seq src dst in
+  bytes u /\ length u = 10%nat /\
+  get_word 0 u = sp /\ get_word 1 u = dp /\ get_word 2 u = 10 /\ get_word 3 u = seq /\
+  get_word 4 u <> 0 /\
+  rfc1071_valid (pseudo_header_v6 src dst 17 10) u.
+Proof. exact paris_udp_v6_meets_spec. Qed.
+
+(* ... and that specification leaves no freedom: it determines the ten octets *)
+Theorem c13_paris_ipv6_unique : forall sp dp seq src dst u u',
+  length src = 16%nat -> length dst = 16%nat ->
+  paris_v6_spec sp dp seq src dst u -> paris_v6_spec sp dp seq src dst u' -> u = u'.
+Proof. exact paris_v6_spec_unique. Qed.
+
+(* the probe shape the receive-side theorems (C02) use for a Paris probe over IPv6 is the same datagram *)
+Theorem c13_paris_ipv6_probe_shape : forall c sp dp seq payload, Types.is_v6 (RecvCommon.rc_dest c) = true ->
+  ProbeShape.udp_wire c sp dp seq true payload = paris_udp_v6 sp dp seq (RecvCommon.rc_src c) (RecvCommon.rc_dest c).
+Proof. exact udp_wire_paris_v6. Qed.
+
+(* the computed-zero case exists (2001:db8::1 -> 2001:db8::2, ports 5000 -> 33434, sequence 3651): the swap
+   alone would put 0x0000 into the payload, the datagram on the wire carries 0xFFFF *)
+Example c13_paris_ipv6_computed_zero :
+  let src := [32;1;13;184;0;0;0;0;0;0;0;0;0;0;0;1] in
+  let dst := [32;1;13;184;0;0;0;0;0;0;0;0;0;0;0;2] in
+  get_word 4 (paris_udp 5000 33434 3651 src dst) = 0 /\
+  paris_udp_v6 5000 33434 3651 src dst = [19; 136; 130; 154; 0; 10; 14; 67; 255; 255].
+Proof. exact paris_v6_computed_zero_example. Qed.
+
+(* non-vacuity of the corner positions: odd length with the skipped word on the tail; skipped word beyond the data *)
+Example c13_skipped_word_examples :
+  checksum [1;2;3;4;5] 2 = 65535 - oc_norm (zsum (words [1;2;3;4])) /\
+  ip_checksum [1;2;3;4;5] 2 [1;2;3;4] [5;6;7;8] 17 =
+    65535 - oc_norm (pseudo_sum [1;2;3;4] [5;6;7;8] 17 [1;2;3;4;5] + zsum (words [1;2;3;4])) /\
+  checksum [1;2;3;4] 2 = 65535 - oc_norm (zsum (words [1;2;3;4])).
+Proof. vm_compute. repeat split; reflexivity. Qed.
+
+(* the same two corner positions for the un-keyed checksum (ICMPv4, IPv4 header) *)
+Theorem c13_skipped_word_unkeyed : forall d k, bytes d -> Z.of_nat (length d) <= 65535 ->
+  (length d = (2 * k + 1)%nat -> checksum d (Z.of_nat k) = 65535 - oc_norm (zsum (words (firstn (2 * k) d)))) /\
+  (d <> [] -> (length d <= 2 * k)%nat -> checksum d (Z.of_nat k) = 65535 - oc_norm (zsum (words d))).
+Proof.
+  intros d k Hd Hl. split; [intro H; apply checksum_tail_skipped; assumption|].
+  intros Hne H. apply checksum_beyond; assumption.
+Qed.
+
+(* Paris over IPv4, stated with the RFC 768 pseudo-header octets (c13_paris states it with [pseudo_sum]) *)
+Theorem c13_paris_ipv4_valid : forall sp dp seq src dst,
+  0 <= sp < 65536 -> 0 <= dp < 65536 -> 0 <= seq < 65536 ->
+  bytes src -> bytes dst -> length src = 4%nat -> length dst = 4%nat ->
+  rfc1071_valid (pseudo_header_v4 src dst 17 10) (paris_udp sp dp seq src dst).
+Proof. exact paris_udp_valid_v4. Qed.
